@@ -34,6 +34,8 @@ class Plan(object):
         # faults by hook name + element (raised at EVERY call of that hook for that element, e.g. in
         # every auto-retry attempt): [[hook name, ident, kind]]
         self.hook_faults_named = dict(((n, i), e) for n, i, e in program.get("hook_faults_named") or [])
+        # faults by hook name + element that are raised only in ONE auto-retry attempt: [[hook name, ident, kind, attempt]]
+        self.hook_faults_attempts = dict(((n, i, int(a)), e) for n, i, e, a in program.get("hook_faults_attempts") or [])
         self.hook_cleanups = {}
         for c in program.get("cleanups", []):
             self.hook_cleanups.setdefault(int(c["at"]), []).append(c)
@@ -125,7 +127,8 @@ def make_hooks(plan):
                 cid = "h%d" % k
                 plan.registered_cleanups.append(cid)
                 context.add_cleanup(make_cleanup(plan, cid, c.get("raises")))
-            exc = plan.hook_faults.get(k) or plan.hook_faults_named.get((name, ident))
+            exc = plan.hook_faults.get(k) or plan.hook_faults_named.get((name, ident)) or \
+                plan.hook_faults_attempts.get((name, ident, plan.run_index))
             if exc in ("skip", "skip_mark"):
                 # documented run-time exclusion: the before-hook skips its own element
                 # (skip(), or mark_skipped() which "can be called before the element is executed")
